@@ -15,7 +15,10 @@ A cache of this shape is invisible - the program behaves as if every lookup miss
 
     M1  nobody modifies a value that lives in the cache (values handed out are only read, or copied first);
     M3  (same disease, other organ) no parameter default is a mutable object that the function modifies or hands out;
-    M2  the remembered value depends on nothing but the key          [assumed, recorded in the evidence; not decided here].
+    M2  the remembered value depends on nothing but the key: every input the computation reads (parameters and what is reached
+        from them; for a cache that lives on an object also the fields of that object that are set once in __init__) is present
+        in the key as such - a key *derived* from an input (a formatted name, a hash) does not count, two inputs can share it.
+        lru_cache keys on all arguments and is covered by construction.
 
 `MemoAnalysis` finds the cells on the *raw* syntax trees, decides M1/M3 with a small may-alias taint analysis (values read from a
 cell, results of memo functions, and everything reached from them through attributes, items and iteration are "cached objects";
@@ -410,6 +413,7 @@ class MemoAnalysis:
         for cell in self.cells:
             self.obligations.append('memo cell %s (%s): every use is a lookup, a guarded write or a read; values handed out are '
                                     'not modified' % (cell.label, cell.kind))
+            self._m2(cell)
         for fi in self.fns.values():
             if fi.lru:
                 self.obligations.append('memo function %s (lru_cache): results are not modified by any caller' % fi.q)
@@ -600,6 +604,213 @@ class MemoAnalysis:
 
         block(fi.node.body, dict(env0))
         return returned[0]
+
+    # ---- M2: the key covers what the value depends on ---------------------------------------------------------------------------
+    def _m2(self, cell: Cell):
+        if cell.kind == 'scalar':
+            # one value per object: it may depend on the object's set-once fields and on nothing that varies from call to call
+            key_terms: Set[str] = set()
+        for q, fn in cell.functions:
+            fi = self.fns.get(q)
+            if fi is None:
+                continue
+            params = set(fi.params + fi.kwonly)
+            selfn = fi.params[0] if fi.is_method and fi.params else None
+            for st in ast.walk(fn):
+                if not (isinstance(st, ast.Assign) and len(st.targets) == 1):
+                    continue
+                t = st.targets[0]
+                if cell.kind == 'scalar':
+                    if not (isinstance(t, ast.Attribute) and cell.matches(t)):
+                        continue
+                    kterms: Set[str] = set()
+                elif isinstance(t, ast.Subscript) and cell.matches(t.value):
+                    kterms = self._key_terms(fn, t.slice, params)
+                else:
+                    continue
+                deps = self._deps(fn, st.value, params, set())
+                pinned = self._pinned(fn, st, params)
+                frozen = self._set_once_fields(cell, selfn) if cell.kind != 'global' else set()
+                missing = []
+                for d in sorted(deps):
+                    root = d.split('.')[0].split('(')[-1].rstrip(')')
+                    if root in pinned:
+                        continue
+                    if selfn is not None and (d == selfn or d.startswith(selfn + '.')):
+                        if cell.kind == 'global':
+                            missing.append(d)
+                        elif d == selfn or d.split('.')[1] not in frozen:
+                            # calling the object's own methods / reading the object as a whole: its set-once state
+                            if d != selfn:
+                                missing.append(d)
+                        continue
+                    if any(d == k or d.startswith(k + '.') or d.startswith('type(%s)' % k) for k in kterms):
+                        continue
+                    if d.startswith('type(') and cell.kind != 'global' and cell.module == 'yatiml.representers':
+                        # a representer object is registered for exactly one class (add_representer(cls, R(cls)), decided by
+                        # R05.2) and PyYAML dispatches on the exact type: the type of the object it is called with is that class
+                        continue
+                    missing.append(d)
+                what = '%s[%s]' % (cell.name, _txt(t.slice)) if cell.kind != 'scalar' else cell.name
+                if missing:
+                    self.violations.append(Violation(
+                        'M2', cell.module, q, 'key:%s:misses:%s' % (cell.name, ','.join(missing)[:80]), st.lineno,
+                        'the value remembered in %s depends on %s, which the key (%s) does not contain as such: two lookups that differ '
+                        'only there share one entry, and the second gets the answer computed for the first'
+                        % (what, ', '.join(missing), ', '.join(sorted(kterms)) or 'nothing')))
+                else:
+                    self.obligations.append('%s: the value stored in %s depends only on %s - all in the key' % (
+                        q, what, ', '.join(sorted(deps)) or 'constants'))
+
+    def _set_once_fields(self, cell: Cell, selfn: Optional[str]) -> Set[str]:
+        out, elsewhere = set(), set()
+        tree = self.trees[cell.module]
+        for c in ast.walk(tree):
+            if isinstance(c, ast.ClassDef) and c.name == cell.cls:
+                for f in c.body:
+                    if isinstance(f, ast.FunctionDef):
+                        for n in ast.walk(f):
+                            if isinstance(n, ast.Attribute) and isinstance(n.ctx, (ast.Store, ast.Del)) and isinstance(n.value, ast.Name) \
+                                    and f.args.args and n.value.id == f.args.args[0].arg:
+                                (out if f.name == '__init__' else elsewhere).add(n.attr)
+        return {a for a in out if a not in elsewhere} | {a.replace('_%s' % (cell.cls or '').lstrip('_'), '', 1) for a in out if a not in elsewhere}
+
+    def _chain(self, e: ast.AST) -> Optional[str]:
+        """`p`, `p.a.b`, `type(p)`, and `p.__init__` / `p.__class__` (which only depend on the type of p)"""
+        if isinstance(e, ast.Name):
+            return e.id
+        if isinstance(e, ast.Attribute):
+            b = self._chain(e.value)
+            if b is None:
+                return None
+            if e.attr in ('__init__', '__class__') and not b.startswith('type('):
+                return 'type(%s)' % b if e.attr == '__class__' else 'type(%s).__init__' % b
+            return b + '.' + e.attr
+        if isinstance(e, ast.Call) and isinstance(e.func, ast.Name) and e.func.id == 'type' and len(e.args) == 1 and not e.keywords:
+            b = self._chain(e.args[0])
+            return None if b is None else 'type(%s)' % b
+        return None
+
+    def _local_defs(self, fn: ast.AST, name: str) -> List[ast.AST]:
+        """expressions a local's value is made of: right-hand sides, iterables it is drawn from, things put into it"""
+        out = []
+        for n in ast.walk(fn):
+            if isinstance(n, ast.Assign):
+                for t in n.targets:
+                    if any(isinstance(x, ast.Name) and x.id == name and isinstance(x.ctx, ast.Store) for x in ast.walk(t) if not isinstance(x, ast.Subscript)):
+                        out.append(n.value)
+                    if isinstance(t, ast.Subscript) and isinstance(t.value, ast.Name) and t.value.id == name:
+                        out += [t.slice, n.value]
+            elif isinstance(n, (ast.AnnAssign, ast.AugAssign, ast.NamedExpr)) and isinstance(n.target, ast.Name) and n.target.id == name and n.value is not None:
+                out.append(n.value)
+            elif isinstance(n, (ast.For, ast.comprehension)) and any(isinstance(x, ast.Name) and x.id == name for x in ast.walk(n.target)):
+                out.append(n.iter)
+            elif isinstance(n, ast.With):
+                for it in n.items:
+                    if it.optional_vars is not None and any(isinstance(x, ast.Name) and x.id == name for x in ast.walk(it.optional_vars)):
+                        out.append(it.context_expr)
+            elif isinstance(n, ast.Call) and isinstance(n.func, ast.Attribute) and n.func.attr in MUTATORS and isinstance(n.func.value, ast.Name) \
+                    and n.func.value.id == name:
+                out += list(n.args) + [k.value for k in n.keywords]
+        return out
+
+    def _deps(self, fn: ast.AST, e: ast.AST, params: Set[str], seen: Set[str]) -> Set[str]:
+        out: Set[str] = set()
+        locals_ = {n.id for n in ast.walk(fn) if isinstance(n, ast.Name) and isinstance(n.ctx, ast.Store)}
+
+        def visit(x):
+            c = self._chain(x)
+            if c is not None:
+                root = c.split('.')[0]
+                root = root[5:].split(')')[0] if root.startswith('type(') else root
+                root = root.split('.')[0]
+                if root in params and root not in locals_ - params:
+                    out.add(c)
+                    return
+                if root in locals_:
+                    if root not in seen:
+                        seen.add(root)
+                        for d in self._local_defs(fn, root):
+                            out.update(self._deps(fn, d, params, seen))
+                    return
+                return          # a global, a module, a builtin: program text
+            if isinstance(x, ast.Call) and isinstance(x.func, ast.Attribute) and self._chain(x.func) is not None:
+                # a method call on a chain: depends on the receiver (as far as it is an input) and on the arguments
+                visit(x.func.value)
+                for a in list(x.args) + [k.value for k in x.keywords]:
+                    visit(a)
+                return
+            if isinstance(x, (ast.Lambda, ast.FunctionDef)):
+                return
+            for ch in ast.iter_child_nodes(x):
+                if isinstance(ch, (ast.expr, ast.comprehension, ast.keyword)):
+                    visit(ch)
+        visit(e)
+        return out
+
+    def _key_terms(self, fn: ast.AST, k: ast.AST, params: Set[str]) -> Set[str]:
+        """inputs that are present in the key as such (elements of a tuple key, through single-definition locals)"""
+        terms: Set[str] = set()
+        locals_ = {n.id for n in ast.walk(fn) if isinstance(n, ast.Name) and isinstance(n.ctx, ast.Store)}
+
+        def visit(x, depth=0):
+            if isinstance(x, ast.Tuple):
+                for el in x.elts:
+                    visit(el, depth)
+                return
+            c = self._chain(x)
+            if c is None:
+                return          # a derived key (formatted, hashed, computed): carries none of its inputs as such
+            root = c.split('.')[0]
+            root = root[5:].split(')')[0] if root.startswith('type(') else root
+            root = root.split('.')[0]
+            if root in locals_ and root not in params:
+                defs = self._local_defs(fn, root)
+                if len(defs) == 1 and depth < 4 and isinstance(x, ast.Name):
+                    visit(defs[0], depth + 1)
+                return
+            terms.add(c)
+        visit(k)
+        return terms
+
+    def _pinned(self, fn: ast.AST, st: ast.AST, params: Set[str]) -> Set[str]:
+        """parameters that a dominating test has fixed to one program constant on the way to `st`"""
+        out: Set[str] = set()
+        par = {}
+        for n in ast.walk(fn):
+            for ch in ast.iter_child_nodes(n):
+                par[id(ch)] = n
+
+        def const(x):
+            return isinstance(x, ast.Constant) or (self._chain(x) is not None and self._chain(x).split('.')[0] not in params
+                                                  and not any(isinstance(y, ast.Name) and isinstance(y.ctx, ast.Store) and y.id == self._chain(x).split('.')[0]
+                                                              for y in ast.walk(fn)))
+
+        def fixed(test, truth):
+            if isinstance(test, ast.Compare) and len(test.ops) == 1 and isinstance(test.left, ast.Name) and test.left.id in params and const(test.comparators[0]):
+                if isinstance(test.ops[0], (ast.Is, ast.Eq)) and truth:
+                    return test.left.id
+                if isinstance(test.ops[0], (ast.IsNot, ast.NotEq)) and not truth:
+                    return test.left.id
+            return None
+        # enclosing ifs
+        cur, child = par.get(id(st)), st
+        while cur is not None:
+            if isinstance(cur, ast.If):
+                p_ = fixed(cur.test, any(child is x for x in cur.body))
+                if p_:
+                    out.add(p_)
+            # earlier siblings that leave when the parameter is something else
+            for fld in ('body', 'orelse', 'finalbody'):
+                blk = getattr(cur, fld, None)
+                if isinstance(blk, list) and any(child is x for x in blk):
+                    for sib in blk[:[i for i, x in enumerate(blk) if x is child][0]]:
+                        if isinstance(sib, ast.If) and sib.body and isinstance(sib.body[-1], (ast.Return, ast.Raise, ast.Continue)) and not sib.orelse:
+                            p_ = fixed(sib.test, False)
+                            if p_:
+                                out.add(p_)
+            child, cur = cur, par.get(id(cur))
+        return out
 
     # ---- scope: which functions (transitively) use a construct ------------------------------------------------------------------
     def callers_closure(self, q: str) -> Set[str]:
